@@ -283,6 +283,24 @@ func gen(g *vh.Gen) {
 			g.Emit("scan", st, "3600", fmt.Sprintf("%s:9000*%d,5;%s:9000,7", vh.HS("big"), n, vh.HS("zz")), "-", fmt.Sprintf("%dr%d", 1+g.Intn(2), 3+g.Intn(8)))
 		}
 	}
+	// another client removes ONE of several expired messages of a mailbox between the scanner's snapshot and its
+	// (first) removal call there: the others must still go
+	for i := 0; i < g.N(6, 300); i++ {
+		p := periods[1+g.Intn(len(periods)-1)]
+		mb := pool[g.Intn(len(pool))]
+		m := 3 + g.Intn(5)
+		var ages []string
+		for j := 0; j < m; j++ {
+			ages = append(ages, fmt.Sprint(age(g, p, true)))
+		}
+		if a := age(g, p, false); a >= 0 && g.Chance(0.5) {
+			ages = append(ages, fmt.Sprint(a))
+		}
+		in := fmt.Sprintf("r1/rm:%s:%d", vh.HS(mb), g.Intn(m-1))
+		for _, st := range []string{"mem", "file"} {
+			g.Emit("scan", st, fmt.Sprint(p), vh.HS(mb)+":"+strings.Join(ages, ","), in, "-")
+		}
+	}
 	// cancellation at a callback boundary (with and without interference)
 	for i := 0; i < g.N(15, 250); i++ {
 		p := periods[1+g.Intn(len(periods)-1)]
